@@ -202,6 +202,13 @@ func (x *Exec) allowedCallsObligation(fn *ssa.Function, c *Contract) {
 						}
 					case *ssa.MakeClosure:
 						continue // the closure body is visited below
+					case *ssa.UnOp:
+						// a closure variable kept in a cell (captured by another closure)
+						if mc := uniqueClosureOfCell(v); mc != nil {
+							name = funcKey(mc.Fn.(*ssa.Function))
+						} else {
+							name = "dynamic"
+						}
 					default:
 						name = "dynamic"
 					}
